@@ -38,8 +38,17 @@ Holds(c, r) == CASE c = "Eigenpair" -> Eigenpair(r) [] c = "ModeNonTrivial" -> M
                  [] c = "ModeVanishesOnDof0" -> ModeVanishesOnDof0(r) [] c = "Frequency" -> Frequency(r)
                  [] c = "RigidModes" -> RigidModes(r) [] c = "RigidMotionInvariance" -> RigidMotionInvariance(r)
                  [] c = "ExtraFieldsNoMass" -> ExtraFieldsNoMass(r)
-Applicable(r) == Clauses(r)
-Failing(r) == {c \in Clauses(r) : ~Holds(c, r)}
+\* total verdicts: the numeric clauses presuppose consistent shapes (as many eigenvector entries as free unknowns of the partition
+\* computed from the boundaries, square blocks); a mismatch is itself the verdict
+ShapesConsistent(r) ==
+  IF r.kind \in {"pairs", "mixed"}
+  THEN /\ Len(r.K) = r.n1 * r.n1 /\ Len(r.M) = r.n1 * r.n1 /\ Len(r.vec) = Len(r.lam)
+       /\ \A k \in 1..Len(r.vec) : Len(r.vec[k]) = r.n1
+       /\ (r.kind = "pairs" => /\ Len(r.ext) = Len(r.lam) /\ Len(r.freq) = Len(r.lam) /\ Len(r.dof1) = r.n1
+                                /\ \A k \in 1..Len(r.ext) : Len(r.ext[k]) = Len(r.dof0) + Len(r.dof1))
+  ELSE Len(r.lam) = Len(r.lammoved)
+Applicable(r) == Clauses(r) \cup {"ShapesConsistent"}
+Failing(r) == IF ~ShapesConsistent(r) THEN {"ShapesConsistent"} ELSE {c \in Clauses(r) : ~Holds(c, r)}
 \* reference: K = diag(2, 3), M = diag(1, 2): pairs (2, e1), (3/2, e2)
 RefM == [kind |-> "pairs", n1 |-> 2, tol |-> 8, K |-> <<2 * S, 0, 0, 3 * S>>, M |-> <<S, 0, 0, 2 * S>>,
          lam |-> <<2 * 65536, 98304>>, vec |-> << <<S, 0>>, <<0, S>> >>, ext |-> << <<0, S, 0>>, <<0, 0, S>> >>, dof0 |-> <<0>>, dof1 |-> <<1, 2>>,
